@@ -21,6 +21,9 @@ POD_EDGE = ["12 at night", "12 uhr nachts", "tonight at 12", "12:30 in the after
 MONTH_END_RANGES = ["30.11.2020 23:30 - 3:35", "31.12.2020 22:00 - 1:00", "31.03.2021 von 23 uhr bis 2 uhr", "29.02.2024 23:15-0:45", "28.02.2023 22:30 - 6:00",
                     "31.01.2022 11pm - 2am", "30.04.2021 between 23:00 and 4:00", "31.12.2019 23:59 - 0:01", "31.10.2020 evening - morning", "30.06.2022 20:00 - 8:00",
                     "am 31.12. 23:30 - 3:35", "31.08.2021 from 22:00 until 1:30", "tomorrow 23:30 - 3:35", "friday 23:00 - 2:00"]
+POD_RANGES = ["afternoon 12-2", "nachmittags 12-14 uhr", "abends 10-12", "abends bis 12", "tonight from 10 to 12", "tomorrow evening 10-12", "evening 12-1",
+              "nachts 11-12", "at night 12 - 3", "morgens 11-12", "vormittags 9-12", "afternoon 1-12", "late evening 11 - 12", "am abend von 8 bis 12",
+              "heute nachmittag 12-13 uhr", "friday night 10-12", "night 12:00 - 12:30", "last 11-12", "first 12-1"]
 TRIVIAL = ["", " ", "   ", "#foo", "#foo #bar", "  #x  ", "#", "# #", "#1", "#foo-bar_baz", "gargelbabel", "hello world", "#tag only words here",
            "\t", "\n", ",;", "()", "-", "--", ".", "...", "#-", "a", "0", "00", "000", "0000", "00000"]
 INERT = ["zzz", "qqq", "lorem", "ipsum", "beers", "burgers", "xylophone", "buy", "gift", "dentist", "pizza"]
